@@ -335,6 +335,50 @@ func liftedSortFlag(seq dag.Seq) string {
 	return ""
 }
 
+// sortedSummarizeOnCall: a summarize told its input is sorted (InputSortDir) on a key computed
+// by a function call (the orderPreservingCall list: floor, ceil, round, bucket, every).
+func sortedSummarizeOnCall(seq dag.Seq) bool {
+	for _, op := range seq {
+		switch op := op.(type) {
+		case *dag.Summarize:
+			if op.InputSortDir != 0 {
+				for _, k := range op.Keys {
+					if _, ok := k.RHS.(*dag.Call); ok {
+						return true
+					}
+				}
+			}
+		case *dag.Fork:
+			for _, p := range op.Paths {
+				if sortedSummarizeOnCall(p) {
+					return true
+				}
+			}
+		case *dag.Scatter:
+			for _, p := range op.Paths {
+				if sortedSummarizeOnCall(p) {
+					return true
+				}
+			}
+		case *dag.Scope:
+			if sortedSummarizeOnCall(op.Body) {
+				return true
+			}
+		}
+	}
+	return false
+}
+
+// allErrorKeyed: every row has an error-valued field (the group key the call could not compute).
+func allErrorKeyed(rows []string) bool {
+	for _, r := range rows {
+		if !strings.Contains(r, ":error(") {
+			return false
+		}
+	}
+	return len(rows) > 0
+}
+
 // joinDeclaredDesc: a join whose input the optimizer declared sorted descending (LeftDir /
 // RightDir < 0), so that the join skips its own sort of that side.
 func joinDeclaredDesc(seq dag.Seq) bool {
@@ -512,6 +556,12 @@ func (c *c07Case) classify(l *TLake, o c07Outcome) string {
 	}
 	if sortedSummarizeBelowFanIn(o.Op.After) {
 		return "C07:sortkey:fanin-combine"
+	}
+	if !o.Un.Failed() && !o.Op.Failed() && sortedSummarizeOnCall(o.Op.After) {
+		onlyUn, onlyOp := MsDiffAll(o.Un.Out, o.Op.Out), MsDiffAll(o.Op.Out, o.Un.Out)
+		if allErrorKeyed(onlyUn) && allErrorKeyed(onlyOp) {
+			return "C07:sortkey:order-preserving-call:error-key"
+		}
 	}
 	if joinDeclaredDesc(o.Op.After) {
 		return "C07:join:declared-desc-nulls"
